@@ -206,7 +206,7 @@ CLAIMS.update({
         technique='Lean 4 theorems oversize_no_request / device_error_not_done (+ single/double injection) over the same host+device model; fault injection against the real cli_main',
         text=('Theorems: an oversize firmware yields an empty request trace, non-zero exit and untouched flash (any page count); if any reachable '
               'erase/set-address/write operation is given a non-OK status - any number of injections - the run exits non-zero, never prints done, '
-              'and the exit message is that of the FIRST failing operation (eraseFailed addr status / writeFailed addr status / usbError). Tie: '
+              'and the exit message is that of the FIRST failing operation (eraseFailed addr status / addrFailed addr status / writeFailed addr status), for an error status reported with or without the dfuERROR state (two fault flavours). Tie: '
               'the real cli_main against the Lean device with each error status 1..15 injected at every erase/write/set-address step of runs of '
               '<= 4 pages (all single, all double for <= 2 pages), oversize lengths size+1..size+2048 and 2*size for all variants.'),
         note=TB + ' Set-address failures surface as a raw USBError traceback (exit 1, no done!) - the property names erase and write statuses only.',
